@@ -372,7 +372,15 @@ def rule_coercions(ctx: Ctx, rid="C05.NO-LOSSY-UNION", fields=None, skip_validat
     for cname, c in st.classes().items():
         for s in c.body:
             if isinstance(s, ast.AnnAssign) and isinstance(s.target, ast.Name):
-                members = [A._ann_name(m) for m in A._union_members(s.annotation)]
+                ann = s.annotation
+                for _ in range(3):     # follow module-level type aliases (Term = float | int | str | ...)
+                    if isinstance(ann, ast.Name):
+                        _m2, _node = ctx.src.resolve_name(st, ann.id)
+                        if isinstance(_node, ast.Assign) and not isinstance(_node.value, ast.Call):
+                            ann = _node.value
+                            continue
+                    break
+                members = [A._ann_name(m) for m in A._union_members(ann)]
                 scalar = [m for m in members if m in ("int", "float", "str", "NonNegativeFloat", "NonNegativeInt",
                                                        "PositiveInt", "PositiveFloat", "bool", "StrictInt", "StrictFloat", "StrictStr")]
                 if len(scalar) < 2:
